@@ -36,7 +36,7 @@ CHECKS = {'C15': {'level': 'fault_enumeration',
                          'with setrlimit',
                          'fitted objects are produced by the library itself (fit on harness datasets); their streams '
                          'are whatever the writers emit for them'],
-         'deadline': {'quick': 300, 'thorough': 1500},
+         'deadline': {'quick': 600, 'thorough': 1800},
          'stages': [{'name': 'roundtrip',
                      'harness': 'c15_serial',
                      'args': ['--stage', 'roundtrip', '--rlimit-mb', '4096'],
